@@ -103,12 +103,25 @@ impl Prop for C12P {
                     splits.push((f, b));
                 }
             }
+            // past: 0 = leak right after the split; 1 = the value was first asked for more after it was exhausted
+            // (it has reported None from both ends); 2 / 3 = a fresh value was made to jump past its end with nth / nth_back
+            let mut jobs: Vec<(usize, usize, u8)> = Vec::new();
             for (f, b) in splits {
+                jobs.push((f, b, 0));
+                if f + b == cap && !matches!(leak, Leak::View(..) | Leak::ViewMut(..) | Leak::NestedViewMut(..)) {
+                    jobs.push((f, b, 1));
+                }
+            }
+            if !matches!(leak, Leak::View(..) | Leak::ViewMut(..) | Leak::NestedViewMut(..)) {
+                jobs.push((0, 0, 2));
+                jobs.push((0, 0, 3));
+            }
+            for (f, b, past) in jobs {
                 for spare in [false, true] {
                     match tag {
-                        "T" => run_leak::<Tracked>(&leak, c, r, f, b, spare, ctx),
-                        "U" => run_leak::<u32>(&leak, c, r, f, b, spare, ctx),
-                        _ => run_leak::<TrackedZst>(&leak, c, r, f, b, spare, ctx),
+                        "T" => run_leak::<Tracked>(&leak, c, r, f, b, past, spare, ctx),
+                        "U" => run_leak::<u32>(&leak, c, r, f, b, past, spare, ctx),
+                        _ => run_leak::<TrackedZst>(&leak, c, r, f, b, past, spare, ctx),
                     }
                 }
             }
@@ -120,7 +133,7 @@ impl Prop for C12P {
     }
     fn rule(&self) -> String {
         "every value the API returns that has a destructor or holds a borrow - DrainRow and DrainCol via remove_row/remove_col at every index and pop_row/pop_col, Rows, RowsMut, Col, ColMut (every column), Cells, CellsMut, TooDeeView and TooDeeViewMut of every window (and a nested view_mut of a leaked view_mut), IntoIter - on TooDee<Tracked>, TooDee<u32> (no drop glue) and TooDee<zero-sized> of every shape in the bound, exact and spare capacity, \
-         consumed by every (front, back) split and then passed to mem::forget (items taken out are held and dropped later). Afterwards: shape invariant; every reachable cell live, canary-valid and pairwise distinct; the array is read through Index/rows/cells/col, two cells replaced, rows and columns pushed, inserted, removed and popped, then dropped; no double drop and no drop of a never-constructed value (the array may have lost elements, up to being empty). For IntoIter only the ledger clause applies. \
+         consumed by every (front, back) split - and, once exhausted, asked for more from both ends, or made to jump past the end with nth / nth_back - and then passed to mem::forget (items taken out are held and dropped later). Afterwards: shape invariant; every reachable cell live, canary-valid and pairwise distinct; the array is read through Index/rows/cells/col, two cells replaced, rows and columns pushed, inserted, removed and popped, then dropped; no double drop and no drop of a never-constructed value (the array may have lost elements, up to being empty). For IntoIter only the ledger clause applies. \
          A case is (shape, capacity, leaked value, front, back); non-trivial = non-empty array; distinct by the tuple."
             .into()
     }
@@ -132,14 +145,27 @@ impl Prop for C12P {
     }
 }
 
-fn run_leak<E: Elem>(leak: &Leak, c: usize, r: usize, f: usize, b: usize, spare: bool, ctx: &mut Ctx) {
+fn run_leak<E: Elem>(leak: &Leak, c: usize, r: usize, f: usize, b: usize, past: u8, spare: bool, ctx: &mut Ctx) {
+    let cap = capacity_of(leak, c, r);
     ctx.case(
-        || format!("TooDee<{}> {}x{} {}: take {} from the front and {} from the back of {:?}, then mem::forget it", E::NAME, c, r, if spare { "spare" } else { "exact" }, f, b, leak),
+        || {
+            format!(
+                "TooDee<{}> {}x{} {}: take {} from the front and {} from the back of {:?}{}, then mem::forget it",
+                E::NAME,
+                c,
+                r,
+                if spare { "spare" } else { "exact" },
+                f,
+                b,
+                leak,
+                ["", ", ask the exhausted value for more from both ends (None)", ", jump past the end with nth(len)", ", jump past the end with nth_back(len)"][past as usize]
+            )
+        },
         |cs| {
             let labels: Vec<u32> = (0..(c * r) as u32).collect();
             let mut t: TooDee<E> = super::array_bfs::materialize(c, r, &labels, spare);
             if c > 0 {
-                cs.nontrivial((E::NAME, c, r, spare, leak, f, b));
+                cs.nontrivial((E::NAME, c, r, spare, leak, f, b, past));
             }
             cs.outcome(match leak {
                 Leak::Drain(..) => "leaked-drain",
@@ -162,6 +188,15 @@ fn run_leak<E: Elem>(leak: &Leak, c: usize, r: usize, f: usize, b: usize, spare:
                             held.push(e);
                         }
                     }
+                    match past {
+                        1 => {
+                            held.extend(it.next());
+                            held.extend(it.next_back());
+                        }
+                        2 => held.extend(it.nth(cap)),
+                        3 => held.extend(it.nth_back(cap)),
+                        _ => {}
+                    }
                     std::mem::forget(it);
                 }};
             }
@@ -173,6 +208,19 @@ fn run_leak<E: Elem>(leak: &Leak, c: usize, r: usize, f: usize, b: usize, spare:
                     }
                     for _ in 0..b {
                         let _ = it.next_back();
+                    }
+                    match past {
+                        1 => {
+                            let _ = it.next();
+                            let _ = it.next_back();
+                        }
+                        2 => {
+                            let _ = it.nth(cap);
+                        }
+                        3 => {
+                            let _ = it.nth_back(cap);
+                        }
+                        _ => {}
                     }
                     std::mem::forget(it);
                 }};
